@@ -120,6 +120,15 @@ Theorem C08_position_none_iff_absent :
 Proof. exact @position_none_iff_absent. Qed.
 Print Assumptions C08_position_none_iff_absent.
 
+(* an item without float literals that is a point of the tree is found
+   (with float literals this needs x == x, false for NaN) *)
+Theorem C08_position_finds_present :
+  forall (FO : FloatOps) (t pat : item),
+    float_free pat = true -> In pat (points t) ->
+    exists k, contains t pat 0 = Some k /\ 0 <= k < size t /\ equals (nth_point t k) pat = true.
+Proof. exact @position_finds_present. Qed.
+Print Assumptions C08_position_finds_present.
+
 (* ---- CONTAINER ---- *)
 (* [parent_point t k] is the parent of point k: a list, itself point j < k of
    t, one of whose direct children is rooted at index k *)
